@@ -246,12 +246,12 @@ var IntLimitPool = []float64{
 	-129, -128, -127, 126, 127, 128, 254, 255, 256,
 	-32769, -32768, -32767, 32766, 32767, 32768, 65534, 65535, 65536,
 	-2147483649, -2147483648, -2147483647, 2147483646, 2147483647, 2147483648, 4294967294, 4294967295, 4294967296,
-	-9223372036854775808, 0, 1, -1,
+	-9007199254740992, 9007199254740992, 0, 1, -1,
 }
 
 // IntLimitHazard holds bounds at or beyond 2^63: as float64 they are outside int64 and the tool's int64()
 // conversion wraps (recorded finding int64-bound-overflow).
-var IntLimitHazard = []float64{9223372036854775807, 18446744073709551615, -9223372036854777856}
+var IntLimitHazard = []float64{9223372036854775807, 18446744073709551615, -9223372036854775808, -9223372036854777856}
 
 func (g *Gen) bounds(s *Schema, pool []float64) {
 	r := g.R
